@@ -15,7 +15,9 @@ var genFI = rapid.Custom(func(t *rapid.T) *FI {
 	if rapid.IntRange(0, 3).Draw(t, "nofi") == 0 {
 		return nil
 	}
-	name := rapid.StringMatching(`[a-zA-Z0-9_./ -]{1,12}`)
+	name := rapid.OneOf(rapid.StringMatching(`[a-zA-Z0-9_./ -]{1,12}`),
+		rapid.StringMatching(`[a-z%@+\\"'#:*?!~$&()é-]{1,8}`),
+		rapid.SampledFrom([]string{"100%.txt", "%s", "%d%%", "a%!b", "@@ -1 +1 @@", "--- x", "+++", "a b c", "ü/ñ.go", "\\n", "x\ty"[:1]}))
 	tm := func(label string) (int64, int, int) {
 		if rapid.IntRange(0, 3).Draw(t, label+"zero") == 0 {
 			return -1, 0, 0
@@ -38,7 +40,17 @@ func genFmtCase(t *rapid.T) FmtCase {
 	} else {
 		alpha = []string{"a", "b", "", "-x"}
 	}
-	l, r := genPair(t, alpha, 14)
+	l, r := genPair(t, alpha, rapid.SampledFrom([]int{14, 14, 14, 60}).Draw(t, "maxLen"))
+	if rapid.IntRange(0, 11).Draw(t, "long") == 0 && len(l)+len(r) > 0 {
+		// a line longer than bufio's 4096-byte buffer, somewhere in either input
+		ll := rapid.SampledFrom([]string{"<<L4094x>>", "<<L4095x>>", "<<L4096y>>", "<<L4097x>>", "<<L8192z>>", "<<L5000->>", "<<L300 >>"}).Draw(t, "longLine")
+		if len(l) > 0 && (len(r) == 0 || rapid.Bool().Draw(t, "longLeft")) {
+			l[rapid.IntRange(0, len(l)-1).Draw(t, "longPosL")] = ll
+		}
+		if len(r) > 0 && rapid.Bool().Draw(t, "longRight") {
+			r[rapid.IntRange(0, len(r)-1).Draw(t, "longPosR")] = ll
+		}
+	}
 	return FmtCase{L: l, R: r, N: rapid.SampledFrom([]int{-1, 0, 0, 1, 1, 2, 3, 3}).Draw(t, "n"), FI: genFI.Draw(t, "fi")}
 }
 
